@@ -109,7 +109,7 @@ def run(ctx):
       break
   nrecs = mc.nullspace_cases(ctx.rng, 400 if thorough else 60)
   ctx.count('falsifier_nullspace_records', len(nrecs))
-  for rec in recs[:(len(recs) if thorough or not ok else 150)] + trecs + nrecs:
+  for rec in recs[:(len(recs) if thorough or not ctx.property_ok else 150)] + trecs + nrecs:
     if falsify_rec(ctx, rec, 'metric_axioms'):
       break
 
